@@ -678,15 +678,25 @@ def specStep (f : Nat → List Val) : Op → Option ((Nat → List Val) × Ret)
     | _, _ => none
   | .iter r => some (f, .pos (f r).length)
 
-/-! ### flat_map / flat_set (storage = a vector, modelled by its element list) -/
+/-! ### flat_map / flat_set (storage = a vector, modelled by its element list)
 
-/-- `std::find_if(begin, end, key ==)` as an index -/
-def findIdx (k : Int) : List (Int × Int) → Nat
+  `lt` is the `Compare` object (`_comp(a, b)`): std::less<int> = `ltInt`, but any comparator can be plugged in
+  (the driver knows std::greater<int>, "smaller last digit" and std::greater<std::string> on the decimal
+  text).  Two keys are THE SAME KEY when neither orders before the other (`same`), as in std::map / std::set. -/
+
+/-- std::less<int> -/
+def ltInt (a b : Int) : Bool := decide (a < b)
+
+/-- `!_comp(a, b) && !_comp(b, a)` -/
+def same (lt : Int → Int → Bool) (a b : Int) : Bool := !lt a b && !lt b a
+
+/-- `std::find_if(begin, end, same key)` as an index -/
+def findIdx (lt : Int → Int → Bool) (k : Int) : List (Int × Int) → Nat
   | [] => 0
-  | p :: ps => if p.1 = k then 0 else findIdx k ps + 1
+  | p :: ps => if same lt p.1 k then 0 else findIdx lt k ps + 1
 
-/-- libstdc++ `std::upper_bound(first, last, value, a.first < b.first)` on a possibly unsorted vector -/
-def mapUpper (m : List (Int × Int)) (k : Int) : Nat → Nat → Nat → Nat
+/-- libstdc++ `std::upper_bound(first, last, value, _comp(a.first, b.first))` on a possibly unsorted vector -/
+def mapUpper (lt : Int → Int → Bool) (m : List (Int × Int)) (k : Int) : Nat → Nat → Nat → Nat
   | 0, first, _ => first
   | fuel + 1, first, len =>
     if len = 0 then first else
@@ -694,8 +704,8 @@ def mapUpper (m : List (Int × Int)) (k : Int) : Nat → Nat → Nat → Nat
     match m[first + half]? with
     | none => first
     | some p =>
-      if k < p.1 then mapUpper m k fuel first half
-      else mapUpper m k fuel (first + half + 1) (len - half - 1)
+      if lt k p.1 then mapUpper lt m k fuel first half
+      else mapUpper lt m k fuel (first + half + 1) (len - half - 1)
 
 def listInsert {α} (xs : List α) (pos : Nat) (x : α) : List α := xs.take pos ++ x :: xs.drop pos
 
@@ -703,37 +713,41 @@ structure FMap where
   st : List (Int × Int) := []
 
 namespace FMap
-def find (m : FMap) (k : Int) : Option Int :=
-  let i := findIdx k m.st
-  (m.st[i]?).map (·.2)
-def count (m : FMap) (k : Int) : Nat := m.st.countP (·.1 = k)
+variable (lt : Int → Int → Bool)
+/-- find(): the entry `*it` found by find_if, `none` = end() -/
+def findEntry (m : FMap) (k : Int) : Option (Int × Int) := m.st[findIdx lt k m.st]?
+def find (m : FMap) (k : Int) : Option Int := (m.findEntry lt k).map (·.2)
+def count (m : FMap) (k : Int) : Nat := m.st.countP (fun p => same lt p.1 k)
 /-- operator[]: a reference to the mapped value, default-inserted at the END if absent -/
 def index (m : FMap) (k : Int) : FMap × Int :=
-  match m.find k with
+  match m.find lt k with
   | some v => (m, v)
   | none => (⟨m.st ++ [(k, 0)]⟩, 0)
-/-- `m[k] = v` -/
+/-- `m[k] = v` (a present entry keeps its stored key) -/
 def assign (m : FMap) (k v : Int) : FMap :=
-  let i := findIdx k m.st
-  if i < m.st.length then ⟨m.st.set i (k, v)⟩ else ⟨m.st ++ [(k, v)]⟩
+  let i := findIdx lt k m.st
+  match m.st[i]? with
+  | some p => ⟨m.st.set i (p.1, v)⟩
+  | none => ⟨m.st ++ [(k, v)]⟩
+/-- insert(value): the entry the returned iterator points to -/
 def insert (m : FMap) (k v : Int) : FMap × Int × Int :=
-  match m.find k with
-  | some w => (m, k, w)
-  | none => (⟨listInsert m.st (mapUpper m.st k m.st.length 0 m.st.length) (k, v)⟩, k, v)
+  match m.findEntry lt k with
+  | some p => (m, p.1, p.2)
+  | none => (⟨listInsert m.st (mapUpper lt m.st k m.st.length 0 m.st.length) (k, v)⟩, k, v)
 def emplace (m : FMap) (k v : Int) : FMap × Bool × Int :=
-  match m.find k with
+  match m.find lt k with
   | some w => (m, false, w)
   | none => (⟨m.st ++ [(k, v)]⟩, true, v)
 /-- initializer-list constructor (after the fix): first entry of a key wins -/
 def ofList : List (Int × Int) → FMap → FMap
   | [], m => m
-  | (k, v) :: r, m => ofList r (if (m.find k).isSome then m else ⟨m.st ++ [(k, v)]⟩)
+  | (k, v) :: r, m => ofList r (if (m.find lt k).isSome then m else ⟨m.st ++ [(k, v)]⟩)
 /-- the constructor before the fix: `storage(init)` -/
 def ofListOrig (l : List (Int × Int)) : FMap := ⟨l⟩
 end FMap
 
-/-- libstdc++ `std::lower_bound` -/
-def lowerBound (s : List Int) (k : Int) : Nat → Nat → Nat → Nat
+/-- libstdc++ `std::lower_bound(first, last, key, _comp)` -/
+def lowerBound (lt : Int → Int → Bool) (s : List Int) (k : Int) : Nat → Nat → Nat → Nat
   | 0, first, _ => first
   | fuel + 1, first, len =>
     if len = 0 then first else
@@ -741,22 +755,23 @@ def lowerBound (s : List Int) (k : Int) : Nat → Nat → Nat → Nat
     match s[first + half]? with
     | none => first
     | some m =>
-      if m < k then lowerBound s k fuel (first + half + 1) (len - half - 1)
-      else lowerBound s k fuel first half
+      if lt m k then lowerBound lt s k fuel (first + half + 1) (len - half - 1)
+      else lowerBound lt s k fuel first half
 
 structure FSet where
   st : List Int := []
 
 namespace FSet
-def lb (s : FSet) (k : Int) : Nat := lowerBound s.st k s.st.length 0 s.st.length
+variable (lt : Int → Int → Bool)
+def lb (s : FSet) (k : Int) : Nat := lowerBound lt s.st k s.st.length 0 s.st.length
 def insert (s : FSet) (k : Int) : FSet :=
-  let i := s.lb k
+  let i := s.lb lt k
   match s.st[i]? with
-  | some x => if ¬ (k < x) then s else ⟨listInsert s.st i k⟩
+  | some x => if ¬ (lt k x) then s else ⟨listInsert s.st i k⟩
   | none => ⟨listInsert s.st i k⟩
 def count (s : FSet) (k : Int) : Nat :=
-  match s.st[s.lb k]? with
-  | some x => if ¬ (k < x) then 1 else 0
+  match s.st[s.lb lt k]? with
+  | some x => if ¬ (lt k x) then 1 else 0
   | none => 0
 end FSet
 
@@ -765,7 +780,7 @@ end FSet
 
 namespace FMap
 /-- at(): the same find_if loop as find; `none` = throws std::out_of_range -/
-def atKey (m : FMap) (k : Int) : Option Int := m.find k
+def atKey (lt : Int → Int → Bool) (m : FMap) (k : Int) : Option Int := m.find lt k
 def size (m : FMap) : Nat := m.st.length
 end FMap
 
@@ -792,23 +807,23 @@ inductive MRet where
   | throw
   deriving DecidableEq, Repr
 
-def FMap.step (m : FMap) : MOp → FMap × MRet
-  | .index k => let (m, v) := m.index k; (m, .val v)
-  | .assign k v => (m.assign k v, .unit)
-  | .insert k v => let (m, a, b) := m.insert k v; (m, .kv a b)
-  | .emplace k v => let (m, b, w) := m.emplace k v; (m, .flag b w)
-  | .find k => (m, .opt (m.find k))
-  | .count k => (m, .nat (m.count k))
-  | .at k => (m, match m.atKey k with | some v => .val v | none => .throw)
+def FMap.step (lt : Int → Int → Bool) (m : FMap) : MOp → FMap × MRet
+  | .index k => let (m, v) := m.index lt k; (m, .val v)
+  | .assign k v => (m.assign lt k v, .unit)
+  | .insert k v => let (m, a, b) := m.insert lt k v; (m, .kv a b)
+  | .emplace k v => let (m, b, w) := m.emplace lt k v; (m, .flag b w)
+  | .find k => (m, .opt (m.find lt k))
+  | .count k => (m, .nat (m.count lt k))
+  | .at k => (m, match m.atKey lt k with | some v => .val v | none => .throw)
   | .size => (m, .nat m.size)
   | .clear => (⟨[]⟩, .unit)
-  | .init l => (FMap.ofList l ⟨[]⟩, .unit)
+  | .init l => (FMap.ofList lt l ⟨[]⟩, .unit)
 
-def FMap.run : FMap → List MOp → FMap × List MRet
+def FMap.run (lt : Int → Int → Bool) : FMap → List MOp → FMap × List MRet
   | m, [] => (m, [])
   | m, op :: ops =>
-    let (m1, r) := m.step op
-    let (m2, rs) := FMap.run m1 ops
+    let (m1, r) := m.step lt op
+    let (m2, rs) := FMap.run lt m1 ops
     (m2, r :: rs)
 
 inductive SOp where
@@ -825,24 +840,29 @@ inductive SRet where
   | keys (l : List Int)
   deriving DecidableEq, Repr
 
-def FSet.step (s : FSet) : SOp → FSet × SRet
-  | .insert k => (s.insert k, .unit)
-  | .count k => (s, .nat (s.count k))
+def FSet.step (lt : Int → Int → Bool) (s : FSet) : SOp → FSet × SRet
+  | .insert k => (s.insert lt k, .unit)
+  | .count k => (s, .nat (s.count lt k))
   | .size => (s, .nat s.st.length)
   | .clear => (⟨[]⟩, .unit)
   | .iter => (s, .keys s.st)
 
-def FSet.run : FSet → List SOp → FSet × List SRet
+def FSet.run (lt : Int → Int → Bool) : FSet → List SOp → FSet × List SRet
   | s, [] => (s, [])
   | s, op :: ops =>
-    let (s1, r) := s.step op
-    let (s2, rs) := FSet.run s1 ops
+    let (s1, r) := s.step lt op
+    let (s2, rs) := FSet.run lt s1 ops
     (s2, r :: rs)
 
 /-- first index whose element is not less than `k` (what std::lower_bound returns on a sorted vector) -/
-def lbSpec (k : Int) : List Int → Nat
+def lbSpec (lt : Int → Int → Bool) (k : Int) : List Int → Nat
   | [] => 0
-  | y :: ys => if y < k then lbSpec k ys + 1 else 0
+  | y :: ys => if lt y k then lbSpec lt k ys + 1 else 0
+
+/-- first index whose key is greater than `k` under the comparator -/
+def ubSpecBy (lt : Int → Int → Bool) (k : Int) : List Int → Nat
+  | [] => 0
+  | y :: ys => if lt k y then 0 else ubSpecBy lt k ys + 1
 
 /-! ### the member functions as they were BEFORE the `fix:` commits of branch fix-C02
 
